@@ -148,20 +148,22 @@ impl MarlinPST13 {
 //@body
 //@rw 1 /let mut total_w = vec!\[G1::zero\(\); vk\.num_vars\];|let mut total_w = vec!\[<E::G1>::zero\(\); vk\.num_vars\];/ => let mut total_w: Vec<G1> = vec_g1_zero(vk.num_vars);
 //@rw 1 /(?s)for \(\(\(c, z\), v\), proof\) in([^{]*?)combined_comms\s*\.iter\(\)\s*\.zip\(combined_queries\)\s*\.zip\(combined_evals\)\s*\.zip\(proof\)/ => let pf__: &Vec<Proof> = proof; for (((c, z), v), proof) in\1combined_comms.iter().zip(combined_queries).zip(combined_evals).zip(pf__.iter())
-//@rw 1 /(?s)let mut temp: E::G1 = ark_std::cfg_iter!\(w\)\s*\.enumerate\(\)\s*\.map\(\|\(j, w_j\)\| w_j\.mul\(z\[j\]\)\)\s*\.sum\(\);/ => let mut temp: G1 = G1::zero();
+//@rw 1 /(?s)let mut temp: E::G1 = ark_std::cfg_iter!\(w\)\s*\.enumerate\(\)\s*\.map\(\|\(j, w_j\)\| ([^;]*?)\)\s*\.sum\(\);/ => let mut temp: G1 = G1::zero();
             let mut j: usize = 0;
             for w_j in itw: w.iter()
                 invariant j == itw.index@, itw.index@ <= w@.len(), temp@ == pb_zw(w@, z@, j as nat),
-            { temp += &w_j.mul(at_fr(&z, j)); ctr_inc(&mut j); }
-//@rw 1 /(?s)ark_std::cfg_iter_mut!\(total_w\)\s*\.enumerate\(\)\s*\.for_each\(\|\(i, w_i\)\| \*w_i \+= &w\[i\]\.mul\(randomizer\)\);/ => let mut i: usize = 0;
+            { let term__: G1 = \1; temp += &term__; ctr_inc(&mut j); }
+//@rw * /\bz\[j\]/ => at_fr(&z, j)
+//@rw 1 /(?s)ark_std::cfg_iter_mut!\(total_w\)\s*\.enumerate\(\)\s*\.for_each\(\|\(i, w_i\)\| \*w_i \+= &([^;]*?)\);/ => let mut i: usize = 0;
             while i < total_w.len()
                 invariant i <= total_w@.len(), total_w@.len() == vk.num_vars, 0 <= nq < pv0.len(), *w == pv0[nq as int].w, randomizer@ == pb_r(id0, pos0, nq as nat),
                     forall|jj: int| 0 <= jj < i ==> jj < w@.len() && (#[trigger] total_w@[jj])@ == pb_tw(pv0, id0, pos0, jj, (nq + 1) as nat),
                     forall|jj: int| i <= jj < total_w@.len() ==> (#[trigger] total_w@[jj])@ == pb_tw(pv0, id0, pos0, jj, nq as nat),
                 decreases total_w@.len() - i,
-            { let mut t__ = total_w[i]; let ghost t0 = t__@; t__ += &at(w, i).mul(randomizer);
+            { let mut t__ = total_w[i]; let ghost t0 = t__@; let add__: G1 = \1; t__ += &add__;
               proof { assert(t0 == pb_tw(pv0, id0, pos0, i as int, nq as nat)); assert(t__@ == f_add(t0, f_mul(w@[i as int]@, randomizer@))); assert(pb_tw(pv0, id0, pos0, i as int, (nq + 1) as nat) == f_add(pb_tw(pv0, id0, pos0, i as int, nq as nat), f_mul(pv0[nq as int].w@[i as int]@, pb_r(id0, pos0, nq as nat)))); }
               total_w.set(i, t__); i = i + 1; }
+//@rw * /\bw\[i\]/ => (*at(w, i))
 //@rw 1 /u128::rand\(rng\)\.into\(\)/ => Fr::from_u128_rand(rng)
 //@rw 1 /(?s)let \(mut p1, mut p2\): \(Vec<E::G1Prepared>, Vec<E::G2Prepared>\) = total_w\s*\.into_iter\(\)\s*\.enumerate\(\)\s*\.map\(\|\(j, w_j\)\| \(\(-w_j\)\.into_affine\(\)\.into\(\), vk\.prepared_beta_h\[j\]\.clone\(\)\)\)\s*\.unzip\(\);/ => let mut p1: Vec<G1Prepared> = Vec::new(); let mut p2: Vec<G2Prepared> = Vec::new();
         let mut j: usize = 0;
